@@ -685,4 +685,132 @@ def run (web : υ → Remote υ) (m : Mgr υ) : List (Op υ) → Mgr υ × List 
 
 end Src
 
+/-! ## environment variables (round 8): `ApplyEnvVars = toJSONConfig; envconfig.Process; applyJSONConfig`
+
+The JSON struct is first filled from the *current* Config (the save kind), `envconfig.Process` overwrites the
+fields whose variable is set, and the same apply function as in `LoadJSON` copies the struct back — with the
+current Config as `cur` (no `Default()` in between).  `env = none`: the variable is not set. -/
+def applyEnvScalar [DecidableEq α] (lk : LoadKind) (sk : SaveKind) (zero omitV dflt cur : α) (env : Option α) : α :=
+  loadScalar lk zero cur dflt (match env with | some e => e | none => saveScalar sk zero omitV cur)
+
+/-- `Manager.LoadJSONFileAndEnv` for one setting: `Default()`, the file's value, then the environment -/
+def fileThenEnv [DecidableEq α] (lk : LoadKind) (sk : SaveKind) (zero dflt file : α) (env : Option α) : α :=
+  applyEnvScalar lk sk zero dflt dflt (loadScalar lk zero dflt dflt file) env
+
+/-! ## identity.json (config/identity.go, round 8)
+
+Peer IDs and private keys are abstracted to the index of the key pair they belong to: `id n` is the text of the
+peer ID derived from key pair `n`, `key n` the base64 text of its private key, so `MatchesPrivateKey` is equality
+of indices (trusted: `peer.IDFromPublicKey` is injective on the generated pairs).  `applyIdentityJSON` assigns
+`ident.ID` *before* it decodes the key, so a refused load can leave a half-updated Identity — modelled as is. -/
+namespace Ident
+
+inductive IdTok | bad | id (n : Nat)
+  deriving DecidableEq, Repr
+/-- `badB64`: not base64; `badKey`: base64 of bytes `crypto.UnmarshalPrivateKey` refuses (also the empty text) -/
+inductive KeyTok | badB64 | badKey | key (n : Nat)
+  deriving DecidableEq, Repr
+
+structure St where
+  id : Option Nat := none
+  key : Option Nat := none
+  deriving DecidableEq, Repr
+
+def fresh : St := {}
+
+/-- `Identity.Validate`: ID set, key set, ID matches key -/
+def valid (s : St) : Bool :=
+  match s.id, s.key with
+  | some a, some b => a == b
+  | _, _ => false
+
+/-- `applyIdentityJSON`: Decode ID (error ⇒ return) ; assign ID ; base64 ; UnmarshalPrivateKey (error ⇒ return) ;
+assign key ; `return ident.Validate()` -/
+def apply (s : St) (i : IdTok) (k : KeyTok) : St × Bool :=
+  match i with
+  | .bad => (s, false)
+  | .id a =>
+    match k with
+    | .key b => ({ id := some a, key := some b }, valid { id := some a, key := some b })
+    | _ => ({ s with id := some a }, false)
+
+inductive Doc | garbage | obj (i : IdTok) (k : KeyTok)
+  deriving DecidableEq, Repr
+
+/-- `Identity.LoadJSON` (an absent key is the empty text: `bad` / `badKey`) -/
+def load (s : St) : Doc → St × Bool
+  | .garbage => (s, false)
+  | .obj i k => apply s i k
+
+/-- `toIdentityJSON`; needs a private key (`none`: the code dereferences a nil key — callers load first) -/
+def save (s : St) : Option (IdTok × KeyTok) :=
+  match s.key with
+  | none => none
+  | some b => some ((match s.id with | some a => .id a | none => .bad), .key b)
+
+/-- `Identity.ApplyEnvVars` with `CLUSTER_ID` / `CLUSTER_PRIVATEKEY` (`none` = not set) -/
+def applyEnv (s : St) (ei : Option IdTok) (ek : Option KeyTok) : St × Bool :=
+  match save s with
+  | none => (s, false)
+  | some (i, k) => apply s (ei.getD i) (ek.getD k)
+
+inductive Op | load (d : Doc) | env (ei : Option IdTok) (ek : Option KeyTok)
+  deriving DecidableEq, Repr
+
+def step (s : St) : Op → St × Bool
+  | .load d => load s d
+  | .env ei ek => applyEnv s ei ek
+
+/-- one Identity used for a sequence of operations -/
+def run (s : St) : List Op → St × List Bool
+  | [] => (s, [])
+  | o :: rest =>
+    let r := step s o
+    let rr := run r.1 rest
+    (rr.1, r.2 :: rr.2)
+
+end Ident
+
+/-! ## `config.DisplayJSON` (config/util.go:126-184, round 8)
+
+A configuration value is flattened to its leaves; each leaf carries the path of struct fields from the root
+(JSON name + whether that field carries `hidden:"true"`) and its printed value.  `DisplayJSON` rebuilds the
+*top-level* struct type only: a top-level field tagged hidden gets the type `hiddenField` (printed as the mask,
+its whole subtree gone); every other field keeps its Go type, so tags further down are not looked at. -/
+namespace Disp
+
+structure Seg where
+  name : String
+  hidden : Bool
+  deriving DecidableEq, Repr
+
+structure Leaf where
+  path : List Seg
+  val : String
+  deriving DecidableEq, Repr
+
+def maskText : String := "XXX_hidden_XXX"
+
+/-- the author's intent: some field on the way to the leaf is tagged hidden -/
+def Leaf.tagged (l : Leaf) : Bool := l.path.any (·.hidden)
+
+/-- what the code looks at: the top-level field only -/
+def Leaf.topHidden (l : Leaf) : Bool :=
+  match l.path with
+  | [] => false
+  | s :: _ => s.hidden
+
+/-- the displayed form: per leaf, its top-level field name and the text shown for it -/
+def display (cfg : List Leaf) : List (List String × String) :=
+  cfg.map fun l => if l.topHidden then ((l.path.take 1).map (·.name), maskText) else (l.path.map (·.name), l.val)
+
+/-- the alternative a deep walk would implement -/
+def displayDeep (cfg : List Leaf) : List (List String × String) :=
+  cfg.map fun l => if l.tagged then ((l.path.take 1).map (·.name), maskText) else (l.path.map (·.name), l.val)
+
+/-- texts visible in a displayed form -/
+def shown (d : List (List String × String)) : List String := d.map (·.2)
+
+end Disp
+
 end CV.C15
